@@ -171,8 +171,11 @@ impl Check {
             println!("KNOWN-FINDING: property={} {} [{}]", self.id, what, sig);
         }
         if !self.machinery.is_empty() {
-            for m in &self.machinery {
+            for m in self.machinery.iter().take(8) {
                 eprintln!("MACHINERY: {}", m);
+            }
+            if self.machinery.len() > 8 {
+                eprintln!("MACHINERY: ... and {} more of the same kind (all of them are in the evidence file)", self.machinery.len() - 8);
             }
             println!(
                 "{}: machinery failure ({} error(s)); no verdict",
